@@ -144,6 +144,9 @@ SEQUENCE_decode_oer(const asn_codec_ctx_t *opt_codec_ctx,
         }
         preamble->nboff = has_extensions_bit;
         ctx->ptr = preamble;
+        /* Remember the extension bit: phase 1 advances preamble->buffer. */
+        ctx->context =
+            has_extensions_bit && (((const uint8_t *)ptr)[0] & 0x80) ? 1 : 0;
         ADVANCE(preamble_bytes);
     }
         NEXT_PHASE(ctx);
@@ -236,8 +239,7 @@ SEQUENCE_decode_oer(const asn_codec_ctx_t *opt_codec_ctx,
         int has_extensions_bit = (specs->first_extension >= 0);
         int extensions_present =
             has_extensions_bit
-            && (preamble->buffer == NULL
-                || (((const uint8_t *)preamble->buffer)[0] & 0x80));
+            && (preamble->buffer == NULL || ctx->context);
         uint8_t unused_bits;
         size_t len = 0;
         ssize_t len_len;
